@@ -142,7 +142,7 @@ PROPS["C04"] = {
     "not_proved": ["leaf range for all seeds", "narrowing conversions lossless for all seeds", "that num-bigint's arithmetic is Lean's Int arithmetic (xgcd is proved on the model and compared with the real routine per run); termination of babai_reduce (capped at 1000 rounds; any quotient sequence is sound)"],
     "release_too": False,
     "parallel_model": True,
-    "run_timeout": {"quick": 900, "thorough": 3000},
+    "run_timeout": {"quick": 900, "thorough": 7200},
 }
 
 PROPS["C05"] = {
@@ -157,7 +157,7 @@ PROPS["C05"] = {
     "not_proved": ["every seed yields an in-range key (the guards reject others; termination of the retry loop is probabilistic)"],
     "release_too": False,
     "parallel_model": True,
-    "run_timeout": {"quick": 900, "thorough": 3000},
+    "run_timeout": {"quick": 900, "thorough": 5400},
 }
 
 PROPS["C15"] = {
@@ -174,7 +174,7 @@ PROPS["C15"] = {
     "release_filter": r"^keygen_digest ",
     "cross_equal": r"^keygen_digest ",
     "parallel_model": True,
-    "run_timeout": {"quick": 900, "thorough": 3000},
+    "run_timeout": {"quick": 900, "thorough": 5400},
 }
 
 PROPS["C01"] = {
